@@ -33,8 +33,10 @@ Definition from_u32_unwrap {E} (cp : N) : outcome N E :=
   if is_scalar cp then Ok cp
   else Panic "lexer/mod.rs:decode_cont_char:char::from_u32(cp).unwrap()".
 
-(* the lead-byte arm of the 2-byte case: 0b11000000..=0b11011111 *)
-Definition lead2_lo : N := 0xC0.
+(* the lead-byte arm of the 2-byte case: 0xC2..=0xDF since the repair of the
+   C0/C1 defect (the pinned tree had 0b11000000..=0b11011111, which accepted the
+   overlong lead bytes C0 and C1) *)
+Definition lead2_lo : N := 0xC2.
 Definition lead2_hi : N := 0xDF.
 
 (* the accepting (byte0, byte1) arms of the 3-byte and 4-byte cases:
